@@ -54,7 +54,7 @@ type result struct {
 }
 
 const (
-	perFileTimeout = 20 * time.Second
+	perFileTimeout = 10 * time.Second
 	addressLimit   = 6 << 30
 )
 
@@ -499,6 +499,86 @@ func rawFile(rng *Rng, k int) ([]byte, string) {
 	return []byte(sb.String()), fmt.Sprintf("raw/vertex-lines-mod3=%d", m%3)
 }
 
+// longLineFiles: files with one line of a given length, around bufio.Scanner's default limit
+// (a line of 65536 bytes or more is "token too long") and far beyond it, in three shapes: no newline at
+// all, a newline only at the end, the long line in the middle of an otherwise valid listing.  The loader
+// must answer (error or mesh) on each of them within the deadline.
+func longLineFiles(rng *Rng, tier string) (out []struct {
+	stratum string
+	content []byte
+}) {
+	add := func(s string, b []byte) {
+		out = append(out, struct {
+			stratum string
+			content []byte
+		}{s, b})
+	}
+	lens := []int{1<<16 - 1, 1 << 16, 1<<16 + 1, 1 << 20, 1<<20 + 1, 3 << 20}
+	if tier != "quick" {
+		lens = append(lens, 1<<17, 1<<19+1, 1<<21, 1<<22+1, rng.Range(1<<16, 1<<22), rng.Range(1<<20, 1<<23))
+	}
+	fill := []byte{0, 'a', ' ', '1', 0xff}
+	for i, n := range lens {
+		f := fill[(i+rng.Intn(len(fill)))%len(fill)]
+		if tier == "quick" && i >= 3 {
+			f = fill[i-3] // 1 MiB and above: zeros, letters, blanks
+		}
+		line := bytes.Repeat([]byte{f}, n)
+		add(fmt.Sprintf("longline/no-newline/len=%d", n), line)
+		add(fmt.Sprintf("longline/newline-at-end/len=%d", n), append(append([]byte{}, line...), '\n'))
+		// in the middle of a valid listing: as a comment line after k complete vertex lines
+		ls := asciiLines(rng, 2)
+		vi := vertexLineIdx(ls)
+		k := 3 // after a complete facet; thorough also after 4 or 5 vertex lines (then the count is not a multiple of 3)
+		if tier != "quick" {
+			k += rng.Intn(3)
+		}
+		at := vi[k-1] + 1
+		var b bytes.Buffer
+		for j, l := range ls {
+			if j == at {
+				b.WriteString("solid ")
+				b.Write(bytes.Repeat([]byte{'x'}, n-6))
+				b.WriteByte('\n')
+			}
+			b.WriteString(l)
+			b.WriteByte('\n')
+		}
+		add(fmt.Sprintf("longline/inside-listing/len=%d", n), b.Bytes())
+	}
+	return out
+}
+
+// hasLongLine: some line (maximal run of bytes other than '\n') has at least n bytes
+func hasLongLine(b []byte, n int) bool {
+	run := 0
+	for _, c := range b {
+		if c == '\n' {
+			run = 0
+			continue
+		}
+		run++
+		if run >= n {
+			return true
+		}
+	}
+	return false
+}
+
+// rle: runs of equal bytes, for a compact replayable description of large generated files
+func rle(b []byte) [][2]int {
+	var rs [][2]int
+	for i := 0; i < len(b); {
+		j := i
+		for j < len(b) && b[j] == b[i] {
+			j++
+		}
+		rs = append(rs, [2]int{int(b[i]), j - i})
+		i = j
+	}
+	return rs
+}
+
 // ---------------------------------------------------------------- the check
 
 type c14Corpus struct {
@@ -552,7 +632,8 @@ func checkC14(c *Ctx, r *Report) error {
 		var rp struct {
 			Failing []struct {
 				Input struct {
-					Hex string `json:"hex"`
+					Hex string   `json:"hex"`
+					Rle [][2]int `json:"rle"`
 				} `json:"input"`
 			} `json:"failing_inputs"`
 		}
@@ -570,7 +651,15 @@ func checkC14(c *Ctx, r *Report) error {
 				v, _ := strconv.ParseUint(f.Input.Hex[2*i:2*i+2], 16, 8)
 				b[i] = byte(v)
 			}
+			for _, r := range f.Input.Rle {
+				b = append(b, bytes.Repeat([]byte{byte(r[0])}, r[1])...)
+			}
 			items = append(items, item{"replay", b})
+		}
+	}
+	if c.Replay == "" {
+		for _, f := range longLineFiles(rng, c.Tier) {
+			items = append(items, item{f.stratum, f.content})
 		}
 	}
 	for k := 0; k < n; k++ {
@@ -599,13 +688,22 @@ func checkC14(c *Ctx, r *Report) error {
 	cs := &Cases{Kind: "load", Imports: imports, Type: "StlLoad.case", Fn: "StlLoad.mismatches", PerShard: 60}
 	small := &Cases{Kind: "loadbig", Imports: imports, Type: "StlLoad.case", Fn: "StlLoad.mismatches", PerShard: 4}
 	var maxRatio, maxIRatio float64
+	directOnly := 0
 	for i, it := range items {
 		res := results[i]
 		size := len(it.content)
 		key := fileKey(it.content)
 		r.Case(it.stratum, key, size > 0)
 		input := map[string]interface{}{"size": size}
-		input["hex"] = fmt.Sprintf("%x", it.content)
+		if rs := rle(it.content); size > 100000 && len(rs) <= 5000 {
+			input["rle"] = rs // [byte, count] runs
+		} else {
+			input["hex"] = fmt.Sprintf("%x", it.content)
+		}
+		// the tokenisation oracle itself: bufio.Scanner fails exactly when a line has 64 KiB or more
+		if _, serr := StlTokens(it.content); serr != hasLongLine(it.content, bufio.MaxScanTokenSize) {
+			return fmt.Errorf("tokenisation oracle: scanner error %v on a file with longest-line>=65536 %v (%s)", serr, !serr, it.stratum)
+		}
 		if size <= 400 && printable(it.content) {
 			input["text"] = string(it.content)
 		}
@@ -618,8 +716,10 @@ func checkC14(c *Ctx, r *Report) error {
 			}
 			tris = append(tris, t)
 		}
-		term := StlLoadCase(i+1, it.content, res.Cls, tris, res.ICls)
-		if size > 20000 {
+		if size > 200000 {
+			// too large to ship to coqc: direct oracles only (answer within the deadline, no panic, allocation)
+			directOnly++
+		} else if term := StlLoadCase(i+1, it.content, res.Cls, tris, res.ICls); size > 20000 {
 			small.Add(term)
 		} else {
 			cs.Add(term)
@@ -648,6 +748,7 @@ func checkC14(c *Ctx, r *Report) error {
 			r.Violate(key, fmt.Sprintf("LoadSTL class %d but obj.ImportSTL class %d on the same file [%s]", res.Cls, res.ICls, it.stratum), input)
 		}
 	}
+	r.Coverage["files_over_200000_bytes_checked_by_direct_oracles_only"] = directOnly
 	r.Coverage["max_alloc_per_byte_loadstl(files>=100B)"] = maxRatio
 	r.Coverage["max_alloc_per_byte_importstl(files>=100B)"] = maxIRatio
 	if err := cs.Write(c.Out); err != nil {
@@ -658,7 +759,7 @@ func checkC14(c *Ctx, r *Report) error {
 			return err
 		}
 	}
-	r.Rule = "files: (a) well-formed ASCII listings of 0..25 facets with one named mutation (1-2 extra or missing vertex lines, malformed numbers, stray tokens, short vertex lines, lines of 65534..140000 bytes around bufio.Scanner's limit, CR/CRLF, NUL, BOM, unicode spaces, deleted/duplicated lines, truncation, garbage tail, vertex lines only); (b) binary files of 0..60 records with one mutation (truncation at and around every field/record boundary, 1..100 extra bytes, count +-1 / 0 / 0x80000000 / 0xffffffff / random, bit flips, consistent re-count, text in the header); (c) raw: random bytes, random bytes of a consistent binary size, text of exactly a binary size, exactly 84 bytes, token soup, k vertex lines for k mod 3 = 0,1,2; plus the corpus. Each file is loaded by render.LoadSTL and obj.ImportSTL in a child process. non-trivial = non-empty file; distinct by content."
+	r.Rule = "files: (a) well-formed ASCII listings of 0..25 facets with one named mutation (1-2 extra or missing vertex lines, malformed numbers, stray tokens, short vertex lines, lines of 65534..140000 bytes around bufio.Scanner's limit, CR/CRLF, NUL, BOM, unicode spaces, deleted/duplicated lines, truncation, garbage tail, vertex lines only); (b) binary files of 0..60 records with one mutation (truncation at and around every field/record boundary, 1..100 extra bytes, count +-1 / 0 / 0x80000000 / 0xffffffff / random, bit flips, consistent re-count, text in the header); (c) long lines: one line of 65535, 65536, 65537, 2^20, 2^20+1 and 3*2^20 bytes (thorough: more, up to 8 MiB) as the whole file without newline, with a newline only at the end, and as a comment line inside a valid listing after 3..5 vertex lines - each must be answered within the per-file deadline; (d) raw: random bytes, random bytes of a consistent binary size, text of exactly a binary size, exactly 84 bytes, token soup, k vertex lines for k mod 3 = 0,1,2; plus the corpus. Each file is loaded by render.LoadSTL and obj.ImportSTL in a child process. non-trivial = non-empty file; distinct by content."
 	r.Trusted = append(r.Trusted,
 		"hand model coq/Io/StlLoad.v of LoadSTL/loadSTLAscii/loadSTLBinary tied by differential execution inside coqc (outcome class of LoadSTL and ImportSTL, and every loaded coordinate bit for bit, NaN as one class)",
 		"tokenisation oracle: bufio.Scanner (default 64 KiB limit), strings.Fields, strconv.ParseFloat are run by the harness on the same bytes and given to the model",
@@ -666,7 +767,8 @@ func checkC14(c *Ctx, r *Report) error {
 	r.Assumptions = append(r.Assumptions,
 		"the binary path with a very large count needs a file of that size (84+50*count bytes); counts up to 60 are executed, larger ones are covered by the theorem alloc_proportional only",
 		"termination of bufio.Scanner / ParseFloat / binary.Read on finite input is assumed (standard library); observed through the watchdog",
-		"I/O errors other than end of file are outside the model")
+		"I/O errors other than end of file are outside the model",
+		"files larger than 200000 bytes are checked by the direct oracles only (deadline, panic, allocation), not by the model; the scanner limit the model relies on (scanner error iff some line has 65536 bytes or more) is asserted on every generated file")
 	return nil
 }
 
